@@ -1377,18 +1377,25 @@ def check_e2e(ctx, pid):
                     # the search for a failing input ends here: on this program the implementation also deviates from the
                     # reference semantics in this property's observation, and not in the way the model of the known
                     # deviations predicts
-                    ctx.violation("%s:deviation" % pid, "the implementation deviates from the reference semantics (verdict bits %d) and from the model of its known behaviour: %s" % (code, rc["files"]["main.py"][:400].replace("\n", " | ")), {"case": rc, "bits": code, "clauses": meta.get("clauses")})
+                    ctx.violation("%s:deviation" % pid, "the implementation deviates from the reference semantics (verdict bits %d) and from the model of its known behaviour: %s" % (code, rc["files"]["main.py"][:400].replace("\n", " | ")), {"case": rc, "bits": code, "clauses": meta.get("clauses"), "e2e_case": _e2e_min(c)})
                 continue
             if code & bit:
                 cl = meta.get("clauses") or []
                 if cl:
                     st["dist"]["known_deviation"] += 1
                     for x in cl:
-                        ctx.violation("%s:%s" % (pid, x), "%s: the implementation deviates from the reference semantics on a program with the known situation %r (verdict bits %d)" % (pid, cl, code), {"case": rc, "clauses": cl, "bits": code})
+                        ctx.violation("%s:%s" % (pid, x), "%s: the implementation deviates from the reference semantics on a program with the known situation %r (verdict bits %d)" % (pid, cl, code), {"case": rc, "clauses": cl, "bits": code, "e2e_case": _e2e_min(c)})
                 else:
-                    ctx.violation("%s:deviation" % pid, "the implementation deviates from the reference semantics with no known cause (verdict bits %d): %s" % (code, rc["files"]["main.py"][:400].replace("\n", " | ")), {"case": rc, "bits": code})
+                    ctx.violation("%s:deviation" % pid, "the implementation deviates from the reference semantics with no known cause (verdict bits %d): %s" % (code, rc["files"]["main.py"][:400].replace("\n", " | ")), {"case": rc, "bits": code, "e2e_case": _e2e_min(c)})
             else:
                 st["dist"]["agree"] += 1
+
+
+def _e2e_min(c):
+    """what the replay needs to judge the case again: the program (source, Coq term, spans) and the analyses"""
+    pr = c["prog"]
+    return {"prog": {"source": pr["source"], "coq": pr["coq"], "spans": {str(k_): list(v_) for k_, v_ in pr["spans"].items()}},
+            "analyses": c["analyses"], "coverage": c.get("coverage", False), "mode": c.get("mode")}
 
 
 class _Shift:
@@ -1535,6 +1542,23 @@ def replay(ctx, payload):
         c["keep"] = False
     res = runner.run_cases(cases)
     runner.close_pool()
+    if rp.get("e2e_case") and ctx.pid in E2E_BITS:
+        # judge the recorded input again, three ways, on the current tree
+        import e2e
+
+        ec = rp["e2e_case"]
+        ec["prog"]["spans"] = {int(k_): tuple(v_) for k_, v_ in ec["prog"]["spans"].items()}
+        metas, err = e2e.three_way(ctx.work, [ec], [res[0]], "replay")
+        code = metas[0].get("code", -1) if not err else -1
+        cl = metas[0].get("clauses") or []
+        bit = E2E_BITS[ctx.pid]
+        print("replay verdict bits %s, guard clauses %s%s" % (code, cl, (" (" + err[-200:] + ")") if err else ""))
+        failing = code < 0 or (code & 3) or ((code & bit) and not cl)
+        if failing:
+            print("VIOLATION property=%s replay=%s" % (ctx.pid, payload.get("_path", "")))
+            return 1
+        print("replay: the recorded input no longer fails (or only in a recorded way)")
+        return 0
     for c, r in zip(cases, res):
         print(json.dumps({"case": c["id"], "exc": (r.get("inst") or {}).get("exc"), "deliveries": len((r.get("inst") or {}).get("deliveries", [])), "instrument": r.get("instrument")}, default=str)[:2000])
     print("recorded violation: %s -- %s" % (v.get("key"), v.get("what")))
